@@ -363,18 +363,52 @@ def has_multi_edge_rule(spec):
     return any(len(r['edges']) >= 2 for r in spec['rules'])
 
 
+def d15_rule_faults(r):
+    """The preconditions under which J_precompute_products is known to fail (D15), per rule, edges in right-hand-side order:
+    P1 the first or last edge has a node that no other edge touches; P4 the first or last edge has a repeated attachment node;
+    (>= 3 edges) P2 an internal node is edgeless or is summed out before some prefix/suffix step; P3 a middle edge touches an
+    external node or has a repeated attachment node.  Measured on 1680 generated grammars: all 496 with a j_precompute-only failure
+    satisfy one of them, all 165 multi-edge grammars satisfying none of them pass."""
+    edges = r['edges']; m = len(edges)
+    if m < 2: return set()
+    ext_nodes = set(r['ext'])
+    out = set()
+    def others(i): return set(a for j, e in enumerate(edges) if j != i for a in e['att'])
+    for i in (0, m - 1):
+        if set(edges[i]['att']) - others(i): out.add('P1')
+        if len(set(edges[i]['att'])) < len(edges[i]['att']): out.add('P4')
+    if m >= 3:
+        allatt = set(a for e in edges for a in e['att'])
+        internal = set(range(len(r['nodes']))) - ext_nodes
+        if internal - allatt: out.add('P2')
+        for order in (edges, edges[::-1]):
+            for k in range(1, m - 1):
+                fut = set(a for e in order[k + 1:] for a in e['att'])
+                cur = set(order[k]['att'])
+                past = set(a for e in order[:k] for a in e['att'])
+                if (past & internal) - fut - cur: out.add('P2')
+        for i in range(1, m - 1):
+            if set(edges[i]['att']) & ext_nodes or len(set(edges[i]['att'])) < len(edges[i]['att']): out.add('P3')
+    return out
+
+
+def d15_precondition(spec):
+    return any(d15_rule_faults(r) for r in spec['rules'])
+
+
 def route(case, v):
     """D15: j_precompute=True.  A violation is attributed to it only if (a) it occurs with j_precompute=True while the
     identical configuration with j_precompute=False passes (marked 'jp-only:' by the check) and (b) the grammar has a
-    rule with >= 2 edges (for rules with <= 1 edge J_precompute_products coincides with J)."""
+    rule that satisfies one of the structural preconditions P1-P4 of the finding (d15_rule_faults); a j_precompute-only
+    failure on a grammar whose rules satisfy none of them is a new violation."""
     if not v.kind.startswith('jp-only:'):
         return None
     if case['kind'] == 'single':
-        return 'D15-j_precompute' if has_multi_edge_rule(case['spec']) else None
+        return 'D15-j_precompute' if d15_precondition(case['spec']) else None
     i = v.detail.get('spec_index')
     specs = case['specs']
     # spec_index counts admissible specs only; be conservative: require every spec of the batch that could be meant
-    return 'D15-j_precompute' if any(has_multi_edge_rule(sp) for sp in specs) else None
+    return 'D15-j_precompute' if any(d15_precondition(sp) for sp in specs) else None
 
 
 CANONICAL_D15 = {'kind': 'single', 'spec': {
